@@ -106,6 +106,19 @@ def run(ix, rep, scope='anchored', rule='R-OWN'):
                             an = own.Analyzer(ix, f, set(), sums, cls=uv, store_params=('var_object_dict',)).run()
                             n += 1
                             report(f, an)
+    # the specification wrappers: what the user passes goes through evaluate()/update()/final_update() of the specification object first (varargs: every
+    # positional argument is the caller's)
+    sm = ix.modules.get('rtamt.spec.abstract_specification')
+    if sm is not None:
+        for c in sm.classes.values():
+            for mname in ('evaluate', 'update', 'final_update'):
+                f = c.methods.get(mname)
+                if f is None or id(f) in done:
+                    continue
+                done.add(id(f))
+                an = own.Analyzer(ix, f, 'all', sums, cls=c).run()
+                n += 1
+                report(f, an, slot_prefix='wrapper:')
     if scope == 'package':
         for f in all_semantic_methods(ix):
             if id(f) in done:
